@@ -178,6 +178,7 @@ inductive Err
   | requestContextNotRunning | requestContextNotPaused | requestContextCompleted
   | unknownRequest | invalidResponse | insufficientFunds | invalidWithdrawAddress
   | invalidServiceName | invalidRequest | invalidCoins | invalidAddress | unauthorized
+  | invalidModuleService
 deriving DecidableEq, Repr
 
 inductive Res
